@@ -42,8 +42,12 @@ func dateTuple(s string) []int {
 
 // readTLDTable reads the delegation table from the AST of util/gtld_map.go (the map itself is unexported).
 func readTLDTable() []tldEntry {
+	return readTLDTableFrom(filepath.Join(corpus.Root(), "v3", "util", "gtld_map.go"))
+}
+
+func readTLDTableFrom(path string) []tldEntry {
 	fset := token.NewFileSet()
-	f, err := parser.ParseFile(fset, filepath.Join(corpus.Root(), "v3", "util", "gtld_map.go"), nil, 0)
+	f, err := parser.ParseFile(fset, path, nil, 0)
 	if err != nil {
 		panic(err)
 	}
